@@ -74,6 +74,34 @@ func renderNum(c numCase) (string, bool) {
 		sb.WriteString("const list<i32> x = [y]\nconst i32 y = z\nconst i32 z = y\n")
 	case "self-service":
 		sb.WriteString("service S extends S {}\n")
+	case "throws-typedef":
+		sb.WriteString("exception X {}\ntypedef X XA\nservice S { void g(), void f() throws (1: XA e) }\n")
+	case "throws-struct":
+		sb.WriteString("struct X {}\nservice S { void f() throws (1: X e) }\n")
+	case "throws-primitive":
+		sb.WriteString("service S { void f() throws (1: string e) }\n")
+	case "oneway-result":
+		sb.WriteString("service S { oneway i32 f() }\n")
+	case "oneway-throws":
+		sb.WriteString("exception X {}\nservice S { oneway void f() throws (1: X e) }\n")
+	case "dup-param-id":
+		sb.WriteString("service S { void f(1: i32 a, 1: i32 b) }\n")
+	case "dup-param-name":
+		sb.WriteString("service S { void g(), void f(1: i32 a, 2: i32 a) }\n")
+	case "dup-throws-id":
+		sb.WriteString("exception X {}\nexception Y {}\nservice S { void f() throws (1: X a, 1: Y b) }\n")
+	case "union-required":
+		sb.WriteString("union U { 1: required i32 a }\n")
+	case "union-default":
+		sb.WriteString("union U { 1: i32 a = 1 }\n")
+	case "extends-struct":
+		sb.WriteString("struct P {}\nservice S extends P {}\n")
+	case "extends-missing":
+		sb.WriteString("service S extends Nope {}\n")
+	case "dup-type-name":
+		sb.WriteString("struct A {}\nenum A { X }\n")
+	case "dup-const-type":
+		sb.WriteString("struct A {}\nconst i32 A = 1\n")
 	case "self-service-2":
 		sb.WriteString("service S extends T {}\nservice T extends S {}\n")
 	}
